@@ -26,10 +26,13 @@ Consume ==
            b6 == (IF e.ev = "Expire" /\ e.check_when_record_gone THEN {"LeaseNotTrustedLongerThanEtcd"} ELSE {})
                  \* a member that resigned stops trusting its lease at once, whether or not etcd could be told
                  \cup (IF e.ev = "Resign" /\ e.check_right_after THEN {"ExpiredOrResignedServesNothing"} ELSE {})
+           \* a member whose id-window write was refused may still hand out what it reserved itself earlier, nothing beyond
+           b8 == IF e.ev = "GuardedWrite" /\ e.kind = "idwindow" /\ e.rec_before # e.m /\ e.served_max > e.own_end
+                   THEN {"NonOwnerServesOnlyOwnIds"} ELSE {}
            \* unless the record was removed under a holder that still trusts its lease, at most one member serves
            split == \E m \in Mem(e) : e.check[m] /\ e.rec # m
            b7 == IF ~split /\ Cardinality({m \in Mem(e) : e.check[m] /\ e.isleader[m]}) > 1 THEN {"AtMostOneServing"} ELSE {}
-       IN tr' = tr /\ down' = d2 /\ bad' = bad \cup {<<tr, c, l>> : c \in b1 \cup b2 \cup b3 \cup b4 \cup b5 \cup b6 \cup b7}
+       IN tr' = tr /\ down' = d2 /\ bad' = bad \cup {<<tr, c, l>> : c \in b1 \cup b2 \cup b3 \cup b4 \cup b5 \cup b6 \cup b7 \cup b8}
 Spec == Init /\ [][Consume]_vars
 HW == IF l > TLCGet(1) THEN TLCSet(1, l) /\ TLCSet(2, bad) ELSE TRUE
 AllConsumed == PrintT(<<"HW", TLCGet(1)>>) /\ PrintT(<<"BAD", TLCGet(2)>>) /\ TLCGet(1) = Len(Trace) + 1
